@@ -56,6 +56,9 @@ def cases(tier, seed):
     for s in SIMS:
         for w in (1, 4, 8, 64, 70):
             out.append({'k': 'illegal', 'sim': s, 'w': w})
+            if s != 'compiled':
+                for ill in ('big', 'neg'):
+                    out.append({'k': 'rejected_step', 'sim': s, 'w': w, 'illegal': ill})
     for s in SIMS:
         out.append({'k': 'step_multiple_resume', 'sim': s})
     for c in ds[:8 if tier == 'quick' else 150]:
@@ -658,8 +661,60 @@ def do_illegal(case, ob, site):
             ob.prove('rejects-with-PyrtlError(%s)' % type(p.exc).__name__, z3.Not(p.cond()), [], None, site=site + ':wrong-exception', extract=ex)
 
 
+def rejected_design(w):
+    pyrtl.reset_working_block()
+    a, b = pyrtl.Input(w, 'a'), pyrtl.Input(w, 'b')
+    r = pyrtl.Register(w, 'r')
+    r.next <<= a ^ b
+    o = pyrtl.Output(w + 1, 'o')
+    o <<= a + r
+    return pyrtl.working_block()
+
+
+def do_rejected_step(case, ob, site):
+    """a step refused for one illegal input is not partly applied: afterwards every observation channel still shows the last
+    accepted step, and the next legal step behaves as if the refused one had not been attempted"""
+    kind, w = case['sim'], case['w']
+    block = rejected_design(w)
+    v = Vars()
+    a0, b0, a1, a2, b2 = (SymInt.mk(v.inp(n, t, w), False) for n, t in (('a', 0), ('b', 0), ('a', 1), ('a', 2), ('b', 2)))
+    illegal = case['illegal']           # the refused value of b: one past the range, or negative
+
+    def body():
+        sim = make_sim(kind, block)
+        sim.step({'a': a0, 'b': b0})
+        try:
+            sim.step({'a': a1, 'b': (1 << w) if illegal == 'big' else -1})
+            refused = False
+        except pyrtl.PyrtlError:
+            refused = True
+        seen = {n: sim.inspect(n) for n in ('a', 'b', 'o', 'r')}
+        last = {n: sim.tracer.trace[n][-1] for n in ('a', 'b', 'o', 'r')}
+        n_steps = len(sim.tracer.trace['a'])
+        sim.step({'a': a2, 'b': b2})
+        return refused, seen, last, n_steps, {n: sim.tracer.trace[n][-1] for n in ('a', 'b', 'o', 'r')}
+    with sym_env([block]):
+        paths = explore(body)
+    ob.paths += len(paths)
+    for p in paths:
+        if p.exc is not None:
+            ob.prove('no-exception(%s)' % type(p.exc).__name__, z3.Not(p.cond()), [], v, site=site + ':exception')
+            continue
+        refused, seen, last, n_steps, after = p.result
+        ob.fact('illegal-input-refused', refused, site + ':accepted')
+        ob.fact('trace-length-unchanged-by-refused-step', n_steps == 1, site + ':trace-length')
+        goals = [('inspect(%s)==last-trace-entry-after-refused-step' % n, to_bv(seen[n], w + 2) == to_bv(last[n], w + 2), site + ':inspect')
+                 for n in ('a', 'b', 'o', 'r')]
+        # the following legal step: r holds a0^b0 (latched by the accepted step), o = a2 + r
+        r1 = a0 ^ b0
+        goals.append(('next-step:r', to_bv(after['r'], w + 2) == to_bv(r1, w + 2), site + ':next-step'))
+        goals.append(('next-step:o', to_bv(after['o'], w + 2) == to_bv(a2 + r1, w + 2), site + ':next-step'))
+        ob.prove_all(goals, list(p.pc), v)
+
+
 KINDS = {'inspect': do_inspect, 'step_multiple': do_step_multiple, 'vcd': do_vcd, 'print_trace': do_print_trace,
-         'rtl_assert': do_rtl_assert, 'default_tracer': do_default_tracer, 'two_sims': do_two_sims, 'run_many': do_run_many, 'illegal': do_illegal, 'step_multiple_resume': do_step_multiple_resume}
+         'rtl_assert': do_rtl_assert, 'default_tracer': do_default_tracer, 'two_sims': do_two_sims, 'run_many': do_run_many, 'illegal': do_illegal, 'step_multiple_resume': do_step_multiple_resume,
+         'rejected_step': do_rejected_step}
 
 
 def run_case(case, ob, tier):
@@ -689,6 +744,8 @@ def replay(cex):
             return True, 'step({a: %d}) raised %r (not PyrtlError)' % (val, e)
         bad = (acc != legal) or (acc and seen != val)
         return bad, '%s.step({a: %d}) on a %d-bit input: %s, o=%r' % (cls.__name__, val, c['w'], 'accepted' if acc else 'rejected', seen)
+    if k == 'rejected_step':
+        return replay_rejected_step(c, cex.get('model', {}))
     if cex.get('structural') or k in ('print_trace', 'step_multiple_resume'):
         ob = Obligations(PROP, c, 20000)
         KINDS[k](c, ob, site_of(c))
@@ -732,6 +789,32 @@ def replay(cex):
     ob = Obligations(PROP, c, 20000)
     KINDS[k](c, ob, site_of(c))
     return bool(ob.sat), 'obligations failing again on re-execution of the real code: %r' % [x['obligation'] for x in ob.sat][:5]
+
+
+def replay_rejected_step(c, mv):
+    w = c['w']
+    block = rejected_design(w)
+    cls = {'sim': pyrtl.Simulation, 'fast': pyrtl.FastSimulation}[c['sim']]
+    sim = cls(block=block)
+    ins = mv.get('inputs', {})
+    g = lambda n, t: int(ins.get(n, {}).get(str(t), ins.get(n, {}).get(t, 0)))
+    sim.step({'a': g('a', 0), 'b': g('b', 0)})
+    bad = []
+    try:
+        sim.step({'a': g('a', 1), 'b': (1 << w) if c['illegal'] == 'big' else -1})
+        bad.append('the illegal input was accepted')
+    except pyrtl.PyrtlError:
+        pass
+    for n in ('a', 'b', 'o', 'r'):
+        if sim.inspect(n) != sim.tracer.trace[n][-1]:
+            bad.append('after the refused step inspect(%s) = %r but the last trace entry is %r' % (n, sim.inspect(n), sim.tracer.trace[n][-1]))
+    if len(sim.tracer.trace['a']) != 1:
+        bad.append('trace length %d after one accepted step' % len(sim.tracer.trace['a']))
+    sim.step({'a': g('a', 2), 'b': g('b', 2)})
+    r1 = g('a', 0) ^ g('b', 0)
+    if sim.inspect('r') != r1 or sim.inspect('o') != g('a', 2) + r1:
+        bad.append('the step after the refused one shows r=%r o=%r, expected %r %r' % (sim.inspect('r'), sim.inspect('o'), r1, g('a', 2) + r1))
+    return bool(bad), '\n'.join(bad)
 
 
 def replay_two_sims(c, block, mv):
